@@ -340,6 +340,18 @@ def run_stream(ctx, pid, n_random, n_nonaligned):
 
 def replay_scenario(pid, payload):
     inp = payload['input']
+    if 'texts' in inp:
+        # a finding stated on the real pipeline: module texts by file name, requested names, options
+        from impl import pipeline
+        st, out, comp = pipeline.compile_set(inp['texts'], requested=inp['requested'], **inp.get('options', {}))
+        bad = []
+        for name in out:
+            if str(st.get(name)) not in ('compiled', 'borrowed'):
+                bad.append('%s written but reported %s' % (name, st.get(name)))
+        for name, v in st.items():
+            if str(v) in ('compiled',) and name in inp['texts'] and name not in out:
+                bad.append('%s reported compiled but not written' % name)
+        return {'fails': bool(bad), 'what': bad}
     sc = inp['scenario']
     impl = cd.run_impl(sc)
     o = oracle(sc, impl, inp.get('aligned', cd.is_aligned(sc)))
